@@ -15,7 +15,7 @@ import falcon.testing as ft  # noqa: E402
 import harness.c05 as c05  # noqa: E402
 from engine.driver import known_findings as _kf  # noqa: E402
 from engine.envmodels import asgi_call, make_environ, make_scope, wsgi_call  # noqa: E402
-from engine.rt import fail, notrace  # noqa: E402
+from engine.rt import fail, notrace, pick  # noqa: E402
 from harness.c09 import GROUPS, _canon  # noqa: E402
 
 PROPERTY = 'C06'
@@ -132,6 +132,100 @@ def app_eq_case(si, mi, has_text, has_data, has_media, stream_kind, set_cl, set_
     return 1
 
 
+class _MwEq:
+    def __init__(self, i, asgi):
+        self.i = i
+
+    def _req(self, req, resp):
+        c = MWBOX['c'][self.i]
+        if c == 1:
+            resp.complete = True
+            resp.text = 'short-%d' % self.i
+        elif c == 2:
+            raise falcon.HTTPForbidden(title='mw%d' % self.i)
+
+    def _rsrc(self, req, resp, resource, params):
+        if MWBOX['c'][self.i] == 3:
+            resp.complete = True
+            resp.text = 'rsrc-%d' % self.i
+
+    def _resp(self, req, resp, resource, req_succeeded):
+        resp.set_header('X-Stamp-%d' % self.i, 'ok' if req_succeeded else 'failed')
+
+
+class _MwEqSync(_MwEq):
+    def process_request(self, req, resp):
+        self._req(req, resp)
+
+    def process_resource(self, req, resp, resource, params):
+        self._rsrc(req, resp, resource, params)
+
+    def process_response(self, req, resp, resource, req_succeeded):
+        self._resp(req, resp, resource, req_succeeded)
+
+
+class _MwEqAsync(_MwEq):
+    async def process_request(self, req, resp):
+        self._req(req, resp)
+
+    async def process_resource(self, req, resp, resource, params):
+        self._rsrc(req, resp, resource, params)
+
+    async def process_response(self, req, resp, resource, req_succeeded):
+        self._resp(req, resp, resource, req_succeeded)
+
+
+class _PlainRes:
+    def on_get(self, req, resp):
+        resp.text = 'responder'
+    on_post = on_get
+
+
+class _PlainARes:
+    async def on_get(self, req, resp):
+        resp.text = 'responder'
+    on_post = on_get
+
+
+MWBOX = {'c': (0, 0)}
+_MWAPPS = {}
+
+
+def _mw_app(asgi, indep):
+    key = (asgi, indep)
+    if key not in _MWAPPS:
+        with notrace():
+            cls = _MwEqAsync if asgi else _MwEqSync
+            app = (falcon.asgi.App if asgi else falcon.App)(middleware=[cls(0, asgi), cls(1, asgi)], independent_middleware=bool(indep))
+            app.add_route('/r', _PlainARes() if asgi else _PlainRes())
+            MWBOX['c'] = (0, 0)
+            if asgi:
+                asgi_call(app, make_scope(path='/r'))
+            else:
+                wsgi_call(app, make_environ(path='/r'))
+            _MWAPPS[key] = app
+    return _MWAPPS[key]
+
+
+def mw_eq_case(indep, c0, c1, mi, routed):
+    """c0/c1: 0 pass, 1 complete in process_request, 2 raise HTTPForbidden in process_request, 3 complete in process_resource."""
+    out = []
+    method = ['GET', 'POST', 'HEAD'][mi]
+    path = '/r' if routed else '/missing'
+    for asgi in (0, 1):
+        app = _mw_app(asgi, indep)
+        MWBOX['c'] = (c0, c1)
+        with notrace():
+            if asgi:
+                res = asgi_call(app, make_scope(method=method, path=path))
+            else:
+                res = wsgi_call(app, make_environ(method=method, path=path))
+        out.append(_norm(res, asgi))
+    if out[0] != out[1]:
+        return fail(lambda: 'middleware actions %r, independent_middleware=%r, %s %s:\n  WSGI %r\n  ASGI %r' % ((c0, c1), bool(indep), method, path, out[0], out[1]))
+    return 1
+
+
 # ---------------------------------------------------------------- L3
 class _Echo:
     def on_get(self, req, resp, tail):
@@ -207,6 +301,17 @@ def partitions(tier, seed):
                        'path_eq_case(raw, query, root_i, strip)', 250 if q else 900,
                        'raw request path of %d free BYTES (incl. invalid UTF-8) + query string <= 2 ASCII characters + root_path menu + '
                        'strip_url_path_trailing_slash: method/path/params/URL parts/headers equal on both Request classes' % L))
+    P.append(_part('path_slashes', 'lead: bytes, k: int, root_i: int, strip: bool', ['len(lead) <= 1', '0 <= k <= 3', '0 <= root_i <= 2'],
+                   "path_eq_case(lead + b'/' * pick(k, 0, 3), '', root_i, strip)", 150,
+                   'request path = at most one free byte followed by 0..3 slashes (runs of trailing slashes) x strip_url_path_trailing_slash x '
+                   'root_path menu: equal on both Request classes'))
+    for indep in (0, 1):
+        P.append(_part('app_middleware_%s' % ('independent' if indep else 'dependent'), 'c0: int, c1: int, mi: int, routed: bool',
+                       ['0 <= c0 <= 3 and 0 <= c1 <= 3', '0 <= mi <= 2'],
+                       'mw_eq_case(%d, pick(c0, 0, 3), pick(c1, 0, 3), pick(mi, 0, 2), bool(pick(int(routed), 0, 1)))' % indep, 150,
+                       'two middleware components on falcon.App and falcon.asgi.App (independent_middleware=%s): each may complete the response '
+                       'or raise in process_request / process_resource and stamps a header in process_response (finite table chosen by the '
+                       'solver): equal status, header set and body' % bool(indep)))
     for si in ((0, 2, 3, 6, 8) if q else range(len(c05.STATUSES))):
         for sk in (0, 1, 2):
             if q and sk and si not in (0, 3):
